@@ -197,10 +197,18 @@ class Ctx:
     def drive(self, v="default"):
         return self.drives[v]
 
+    def locales(self):
+        """environments for the harness: the process has selected a UTF-8 / a single-byte locale before calling the library"""
+        if not hasattr(self, "_locales"):
+            self._locales = vlib.make_locales(self.scr)
+            self.extra_cov["locales_exercised"] = [e["VERIF_LOCALE"] for e in self._locales]
+        return self._locales
+
     # ------------------------------------------------------------------ K and S
-    def run(self, name, variant, ops):
+    def run(self, name, variant, ops, env=None):
         """run model ops through harness and model; returns (c_lines, lean_lines)"""
-        c, l, crashes = vlib.run_ops(self.scr, self.drive(variant), self.lean["driver"], ops, tag=name.replace("/", "_") + "_" + variant.replace("+", "_"))
+        c, l, crashes = vlib.run_ops(self.scr, self.drive(variant), self.lean["driver"], ops, tag=name.replace("/", "_").replace(":", "_") + "_" + variant.replace("+", "_").replace(":", "_"),
+                                     env_extra=env)
         for cr in crashes:
             cr["stream"], cr["variant"] = name, variant
             self.crashes.append(cr)
@@ -210,8 +218,8 @@ class Ctx:
                        op=op, variant=variant, impl=ln, converter_input=ln.split(" CONVIN:")[1][:120])
         return c, l
 
-    def K(self, name, variant, ops, project=None, nontrivial=None):
-        c, l = self.run(name, variant, ops)
+    def K(self, name, variant, ops, project=None, nontrivial=None, env=None):
+        c, l = self.run(name, variant, ops, env=env)
         norm = lambda s: re.sub(r"FAULT.*", "FAULT", s or "")
         bad = 0
         for op, a, b in zip(ops, c, l):
@@ -385,6 +393,25 @@ def c02(ctx):
                 acc_api = e.startswith("e1")
                 if acc_api != (direct[m][s] == "L 0"):
                     ctx.S("through eav_is_email, mode %d judges a local part differently than is_%d_local does" % (m, m), op="H " + sc, input=repr(s), api=e, direct=direct[m][s])
+    # the local-part verdict stands whatever the domain is: in front of an address literal as well as in front of a host name
+    lsub = [s for s in strs if 0 < len(s) <= 64 and 0 not in s and b"@" not in s][:: (40 if ctx.tier == "quick" else 6)]
+    for m in (822, 5321, 5322):
+        spl = ctx.spec(["sL %d %s" % (m, hx(s)) for s in lsub])
+        for dom in (b"[192.0.2.1]", b"[IPv6:2001:db8::1]", b"b.com"):
+            ce = ctx.K("local-before-%s%d" % ("literal" if dom.startswith(b"[") else "host", m), "default", ["E %d 0 %s" % (m, hx(s + b"@" + dom)) for s in lsub], nontrivial=lambda op, ln: True)
+            for s, cl, sl in zip(lsub, ce, spl):
+                if (fields(cl)[1] == "0") != (sl == "sL 1"):
+                    ctx.S("mode %d: an address is decided against the grammar of its local part (domain %s)" % (m, dom.decode()), op="E %d 0 %s" % (m, hx(s + b"@" + dom)), input=repr(s), impl=cl, spec=sl)
+    # an application may have called setlocale(): the verdicts must not follow the process locale
+    hb = [s for s in strs if 0 not in s and any(b >= 0x80 or b < 0x20 for b in s)][:: (6 if ctx.tier == "quick" else 1)] + \
+         [b"caf\xe9", b'"caf\xe9"', b'"a\\\xe9"', b"a\x85b", b'"\x9f"', b"\xe9", b"a.\xe9.b"] + [bytes([b]) + b"a" for b in range(0x80, 0x100)]
+    for loc in ctx.locales():
+        for m in (822, 5321, 5322):
+            cl_ = ctx.K("local%d@%s" % (m, loc["VERIF_LOCALE"]), "default", ["L %d %s %s" % (m, hx(s), hx(gen.AT)) for s in hb], project=lambda op, ln: accept_bit(ln), env=loc)
+            spl = ctx.spec(["sL %d %s" % (m, hx(s)) for s in hb])
+            for s, cl, sl in zip(hb, cl_, spl):
+                if (cl == "L 0") != (sl == "sL 1"):
+                    ctx.S("mode %d local part decided against the grammar when the process locale is %s" % (m, loc["VERIF_LOCALE"]), op="L %d %s %s" % (m, hx(s), hx(gen.AT)), input=repr(s), impl=cl, spec=sl, locale=loc["VERIF_LOCALE"])
     # the byte at *end may be read by the 822 folding test: the decision must not depend on it
     fold = [s for s in strs if b"\r\n" in s][:3000]
     for endb in (b" \0", b"\t\0", b"\0"):
@@ -421,6 +448,21 @@ def c03(ctx):
         want = spd[s] == "sL 1" and 1 <= len(s) <= 64
         if (fields(cl)[1] == "0") != want:
             ctx.S("is_6531_email decides L@b.com against strict UTF-8 + the RFC 5321 grammar for L", op="E 6531 0 %s" % hx(s + b"@b.com"), input=repr(s), impl=cl, spec=spd[s])
+    # non-ASCII local parts through the API after every kind of (re-)configuration: mode 6531 stays mode 6531
+    ua = [hx(x) for x in ("a.ü.b@example.com".encode(), "ящик@b.com".encode(), b"a@b.com")]
+    hs = []
+    for pre in ("i;s", "i;s;s", "i;r5321;s;r6531;s", "i;r5321;s;r6531;s;s", "i;s;k8;s", "i;s;t0;s", "i;r822;s;r6531;s;t0;s;k760;s", "i;s;r7;s", "i;r5322;s;r6531;s;r7;s"):
+        hs.append(pre + ";" + ";".join("e" + a for a in ua) + ";f")
+    check_histories(ctx, "utf8-after-setup", hs)
+    # the process locale must not matter: every C1 control, the line/paragraph separators and a sample of everything else, in three positions
+    xs_loc = [chr(cp).encode() for cp in list(range(0x80, 0xA0)) + [0xA0, 0xAD, 0x2028, 0x2029, 0x200B, 0xFEFF, 0xE9, 0x416, 0x4E2D, 0x1F600]]
+    lstr = [f % x for x in xs_loc for f in (b"a.%s.b", b'"%s".b', b"a%sb")]
+    for loc in ctx.locales():
+        cl_ = ctx.K("local6531@%s" % loc["VERIF_LOCALE"], "default", ["L 6531 %s %s" % (hx(s), hx(gen.AT)) for s in lstr], project=lambda op, ln: accept_bit(ln), env=loc)
+        spl = ctx.spec(["sL 6531 %s" % hx(s) for s in lstr])
+        for s_, cl, sl in zip(lstr, cl_, spl):
+            if (cl == "L 0") != (sl == "sL 1"):
+                ctx.S("mode 6531 local part decided against strict UTF-8 + grammar when the process locale is %s" % loc["VERIF_LOCALE"], op="L 6531 %s %s" % (hx(s_), hx(gen.AT)), input=repr(s_), impl=cl, spec=sl, locale=loc["VERIF_LOCALE"])
     # the byte at *end must not take part: characters cut short at `end`, with a continuation byte right behind
     cut = []
     for ch in ("é", "№", "😀", "Ж", "中"):
@@ -466,6 +508,13 @@ def c04(ctx):
                 continue
             if (cl == "D 0") != (sl == "sD 1"):
                 ctx.S("host name decided against the LDH / 63 / 253 / not-all-numeric rules (underscore=%d)" % us, op="D %s 00" % hx(s), variant=v, input=repr(s), impl=cl, spec=sl)
+    # the process locale must not matter (ISALNUM and friends are meant to be ASCII-only)
+    hd = [b"caf\xe9.example.com", b"\xe9.com", b"a\xe9.com", b"a.b\xff", b"x\xc0y.org", b"\xb5.de", b"a-\xe9.com"] + [b"a" + bytes([b]) + b".com" for b in range(0x80, 0x100)]
+    for loc in ctx.locales():
+        cl_ = ctx.K("domain@%s" % loc["VERIF_LOCALE"], "default", ["D %s 00" % hx(d_) for d_ in hd], project=lambda op, ln: accept_bit(ln), env=loc)
+        for d_, cl in zip(hd, cl_):
+            if cl == "D 0":
+                ctx.S("a host name with a byte >= 0x80 is accepted when the process locale is %s" % loc["VERIF_LOCALE"], op="D %s 00" % hx(d_), input=repr(d_), impl=cl, locale=loc["VERIF_LOCALE"])
     # the byte at *end: pins the look-ahead of the hyphen test (model and code must agree; no spec claim)
     sub = [s for s in strs if s.endswith(b"-") or s.endswith(b"-.")][:2000]
     for after in (b"x\0", b".\0", b"-\0"):
@@ -487,6 +536,15 @@ def c04(ctx):
         for tail in (b".com", b".c", b"..", b".-", b".!", b"." + b"b" * 40 + b".com", b".", "。com".encode()):
             idn += [h + tail, ("é" + h[1:].decode() + tail.decode(errors="ignore")).encode() if pre < 254 else h + tail]
     idn = list(dict.fromkeys(idn))
+    # each refused / accepted domain once more right away (a remembered verdict must be the verdict), both tld settings
+    rep = [s for s in idn if s and 0 not in s][:: (5 if ctx.tier == "quick" else 1)] + [b"a" * 64 + b".com", gen.long_host(254), b"b", b"-a.com"]
+    rops = []
+    for d_ in rep:
+        rops += ["U 0 %s" % hx(d_), "U 0 %s" % hx(d_), "U 1 %s" % hx(d_), "U 1 %s" % hx(d_)]
+    rc_ = ctx.K("utf8domain-repeated", "default", rops, nontrivial=lambda op, ln: True)
+    for k in range(0, len(rops), 2):
+        if rc_[k] != rc_[k + 1]:
+            ctx.S("mode 6531 gives the same domain two different verdicts in two consecutive calls", op=rops[k + 1], first=rc_[k], second=rc_[k + 1])
     ops = ["U 0 %s" % hx(s) for s in idn if s and 0 not in s]
     c, l = ctx.run("utf8domain", "default", ops)
     ctx.evals += len(ops)
